@@ -7,4 +7,9 @@ CLAIMED['C12'] = ('DESIGN.md 4/C12', 'Bounded symbolic model checking of get_zer
     'get_switched_peak_array_indices: every sign/zero/order pattern of an n-sample real series (crossings n<=7, '
     'switched peaks n<=6 quick) is a feasible path; the exact-crossing set, one-maximal-peak-per-excursion, sign '
     'alternation and tolerance-subsequence clauses are decided by z3 for all real values on each path.')
+CLAIMED['C08'] = ('DESIGN.md 4/C08', 'Symbolic execution of calc_velo_and_disp_from_accel_arr (both branches, with SciPy\'s real '
+    'cumulative_trapezoid) and the AccSignal accessors with symbolic record AND symbolic dt: increment identities, '
+    'linearity and closed forms are polynomial identities decided structurally/by z3 for n<=10 (24 thorough); '
+    'calc_peak = max|x| is decided for every x in R^n, n<=12 (24), and pga/pgv/pgd are shown to be calc_peak of the '
+    'respective series.')
 NOT_APPLICABLE = {}
